@@ -3,11 +3,14 @@
    byte, strings.Trim with cutset "[]", strings.TrimSuffix "."), over byte strings (list N).
    No proofs in this file.  Every function is compared with the real Go function on every case of the
    correspondence run (the harness ships Go's answers with the case). *)
-From Coq Require Import List NArith Bool.
+From Coq Require Import List NArith Bool String Ascii.
 Import ListNotations.
 Open Scope N_scope.
 
 Definition str := list N.
+
+(* readable literals in examples: bs "example.com" *)
+Definition bs (s : string) : str := map N_of_ascii (list_ascii_of_string s).
 
 Definition c_colon : N := 58.   (* ':' *)
 Definition c_lbr : N := 91.     (* '[' *)
